@@ -25,7 +25,9 @@ CHUNK = 4
 SHAPES = ("direct", "list", "dict", "opt", "tuple", "unionAB", "unionBA", "listunion", "unionint")
 # leaf classes as variants of a class-level discriminator hierarchy that inherit the four hooks from its base, reached through the base
 DSHAPES = ("dbase", "dlist")
-KINDS = ("mixin", "plain", "orjson", "msgpack")
+# "lazy": every class has lazy_compilation (the first call goes through a stub); "postponed": Root refers to its child by a forward
+# reference that is unresolved when Root is created
+KINDS = ("mixin", "plain", "orjson", "msgpack", "lazy", "postponed")
 
 
 def bounds(tier):
@@ -77,11 +79,15 @@ def _hooks(name, ctx_on):
         f"        return replace(obj, tag=obj.tag + '$')\n")
 
 
+LAZY = [False]
+
+
 def _cfg(ctx_on, extra=()):
     flags = list(extra) + (["ADD_SERIALIZATION_CONTEXT"] if ctx_on else [])
-    if not flags:
+    if not flags and not LAZY[0]:
         return ""
-    return f"    class Config(BaseConfig):\n        code_generation_options = [{', '.join(flags)}]\n"
+    return (f"    class Config(BaseConfig):\n        code_generation_options = [{', '.join(flags)}]\n"
+            + ("        lazy_compilation = True\n" if LAZY[0] else ""))
 
 
 def shape_type(shape, child):
@@ -139,12 +145,15 @@ class Tree:
         from mashumaro.mixins.orjson import DataClassORJSONMixin
         ns.update(DataClassORJSONMixin=DataClassORJSONMixin, DataClassMessagePackMixin=DataClassMessagePackMixin)
         base = {"mixin": "(DataClassDictMixin)", "plain": "", "orjson": "(DataClassORJSONMixin)",
-                "msgpack": "(DataClassMessagePackMixin)"}[kind]
+                "msgpack": "(DataClassMessagePackMixin)", "lazy": "(DataClassDictMixin)", "postponed": "(DataClassDictMixin)"}[kind]
+        LAZY[0] = kind == "lazy"
         if depth == 2:
             on = dict(Root=bool(mask & 1), A=bool(mask & 2), B=bool(mask & 4), Mid=False)
         else:
             on = dict(Root=bool(mask & 1), Mid=bool(mask & 2), A=bool(mask & 4), B=bool(mask & 8))
         self.on, self.depth, self.kind = on, depth, kind
+        q = (lambda t: repr(t)) if kind == "postponed" else (lambda t: t)
+        srcs = []
         if (s2 if depth == 3 else s1) in DSHAPES:
             from mashumaro.types import Discriminator
             ns["Discriminator"] = Discriminator
@@ -152,19 +161,23 @@ class Tree:
             hooks = _hooks("A", on["A"]).replace("'A'", "CLSNAME")
             hooks = hooks.replace("LOG.append(('pre_s', CLSNAME", "LOG.append(('pre_s', type(self).__name__").replace(
                 "LOG.append(('post_s', CLSNAME", "LOG.append(('post_s', type(self).__name__").replace("CLSNAME", "cls.__name__")
-            self.ctx.run(f"@dataclass\nclass DBase{base}:\n    tag: str\n    class Config(BaseConfig):\n"
+            srcs.append(f"@dataclass\nclass DBase{base}:\n    tag: str\n    class Config(BaseConfig):\n"
                          f"        discriminator = Discriminator(field='kind', include_subtypes=True)\n"
                          f"        code_generation_options = [{', '.join(flags)}]\n{hooks}")
-            self.ctx.run("@dataclass\nclass A(DBase):\n    kind: str = 'A'\n")
-            self.ctx.run("@dataclass\nclass B(DBase):\n    extra: int = 0\n    kind: str = 'B'\n")
+            srcs.append("@dataclass\nclass A(DBase):\n    kind: str = 'A'\n")
+            srcs.append("@dataclass\nclass B(DBase):\n    extra: int = 0\n    kind: str = 'B'\n")
         else:
-            self.ctx.run(f"@dataclass\nclass A{base}:\n    tag: str\n{_cfg(on['A'], leaf_x)}{_hooks('A', on['A'])}")
-            self.ctx.run(f"@dataclass\nclass B{base}:\n    tag: str\n    extra: int = 0\n{_cfg(on['B'], leaf_x)}{_hooks('B', on['B'])}")
+            srcs.append(f"@dataclass\nclass A{base}:\n    tag: str\n{_cfg(on['A'], leaf_x)}{_hooks('A', on['A'])}")
+            srcs.append(f"@dataclass\nclass B{base}:\n    tag: str\n    extra: int = 0\n{_cfg(on['B'], leaf_x)}{_hooks('B', on['B'])}")
         if depth == 3:
-            self.ctx.run(f"@dataclass\nclass Mid{base}:\n    tag: str\n    c: {shape_type(s2, 'AB')}\n{_cfg(on['Mid'], mid_x)}{_hooks('Mid', on['Mid'])}")
-            self.ctx.run(f"@dataclass\nclass Root{base}:\n    tag: str\n    m: {shape_type(s1, 'Mid')}\n{_cfg(on['Root'], root_x)}{_hooks('Root', on['Root'])}")
+            srcs.append(f"@dataclass\nclass Mid{base}:\n    tag: str\n    c: {shape_type(s2, 'AB')}\n{_cfg(on['Mid'], mid_x)}{_hooks('Mid', on['Mid'])}")
+            srcs.append(f"@dataclass\nclass Root{base}:\n    tag: str\n    m: {q(shape_type(s1, 'Mid'))}\n{_cfg(on['Root'], root_x)}{_hooks('Root', on['Root'])}")
         else:
-            self.ctx.run(f"@dataclass\nclass Root{base}:\n    tag: str\n    m: {shape_type(s1, 'AB')}\n{_cfg(on['Root'], root_x)}{_hooks('Root', on['Root'])}")
+            srcs.append(f"@dataclass\nclass Root{base}:\n    tag: str\n    m: {q(shape_type(s1, 'AB'))}\n{_cfg(on['Root'], root_x)}{_hooks('Root', on['Root'])}")
+        if kind == "postponed":
+            srcs = srcs[-1:] + srcs[:-1]        # Root first: its annotation cannot be resolved yet
+        for src in srcs:
+            self.ctx.run(src)
         self.s1, self.s2 = s1, s2
 
     def values(self):
